@@ -11,6 +11,14 @@ Init0 == [case |-> 0, kind |-> "", fs |-> [term |-> "none"], hasF |-> FALSE, imp
           viol |-> {}, drift |-> {}, cases |-> 0, polls |-> 0]
 Bad(s, ln, ids, what) == {<<s.case, ln, id, what>> : id \in ids}
 
+\* Files beyond TLC's 32-bit integers (sparse files of several GiB): positions are taken relative to the
+\* start of the range and anything further than Window bytes away is "far".  The harness polls such a
+\* stream for a few chunks only (and stops after 2^27 bytes), so within the observed prefix every
+\* comparison of ReadFile!PollFailures has the same value as on the true numbers.
+U == INSTANCE U64
+Window == 500000000
+Rel(x, a) == IF U!Le(x, U!Add(a, U!N(Window))) THEN U!ToNat(U!Sub(x, a)) ELSE Window
+
 \* close a case: history checks
 Close(s, ln) ==
   IF s.kind = "history" /\ Len(s.vs) > 0
@@ -31,6 +39,11 @@ Step(s0, e, ln) ==
                                        THEN Enforce \cap {"C18"} ELSE {}, "metadata")]
     [] e.ev = "fopen" ->
          IF ~e.ok THEN [s0 EXCEPT !.viol = s0.viol \cup Bad(s0, ln, Enforce \cap {"C18"}, "open failed")]
+         ELSE IF e.sparse
+         THEN IF ~(U!Le(e.aL, e.bL) /\ U!Le(e.bL, e.sizeL)) THEN s0      \* (not a range within the file: nothing promised)
+              ELSE [s0 EXCEPT !.fs = InitFileZ(Rel(e.sizeL, e.aL), 0, Rel(e.bL, e.aL), TRUE), !.hasF = TRUE, !.via = FALSE,
+                              !.imp = [s |-> 0, e |-> Rel(e.bL, e.aL)], !.impOK = Strict,
+                              !.viol = s0.viol \cup Bad(s0, ln, OpenFailures(e), "metadata / etag syntax")]
          ELSE [s0 EXCEPT !.fs = InitFile(e.size, e.a, e.b), !.hasF = TRUE, !.via = e.via,
                          !.imp = [s |-> e.a, e |-> e.b], !.impOK = Strict /\ ~e.via,
                          !.viol = s0.viol \cup Bad(s0, ln, OpenFailures(e), "metadata / etag syntax")]
@@ -44,7 +57,7 @@ Step(s0, e, ln) ==
     [] e.ev = "ftrunc" -> IF s0.hasF THEN [s0 EXCEPT !.fs = Truncate(s0.fs, e.len), !.truncated = TRUE] ELSE s0
     [] e.ev = "fpoll" ->
          IF ~s0.hasF THEN s0
-         ELSE LET p == [res |-> e.res, n |-> e.n, runs |-> e.runs]
+         ELSE LET p == [res |-> e.res, n |-> e.n, runs |-> e.runs, z |-> e.z]
                   before == s0.fs.bad
                   fs2 == ObservePoll(s0.fs, p)
                   r == ImplRead(s0.imp, s0.fs.cur, ReadSizeReal)
@@ -59,6 +72,14 @@ Step(s0, e, ln) ==
          \* only: every chunk was compared with the file content at its offset)
          [s0 EXCEPT !.viol = s0.viol \cup Bad(s0, ln, IF e.bad_chunks > 0 \/ e.short_or_failed > 0 THEN Enforce \cap {"C18"} ELSE {},
                                               "concurrent streams over one ChunkedReadFile deliver wrong bytes")]
+    [] e.ev = "fcmp" ->
+         \* a regular file whose reads come back short (kernel-generated): every chunk and every
+         \* single-range response was compared with an independent reading of the file
+         [s0 EXCEPT !.viol = s0.viol
+             \cup Bad(s0, ln, IF e.bad_chunks > 0 \/ e.short_or_failed > 0 \/ e.empty_chunks > 0 THEN Enforce \cap {"C18", "C02"} ELSE {},
+                       "stream over a short-reading file delivers wrong bytes")
+             \cup Bad(s0, ln, IF e.serve_bad > 0 THEN Enforce \cap {"C18", "C02"} ELSE {},
+                       "206 over a short-reading file: wrong Content-Range or body")]
     [] e.ev = "fecho" ->
          \* C14 over a real file (strong ETag, sub-second mtime in the past): served Last-Modified is
          \* the mtime truncated to the second, and echoing validators gives the cache-friendly answer
